@@ -30,7 +30,11 @@ pub fn run(ctx: &Ctx) -> Option<Report> {
     let mut r = run_once(ctx)?;
     if TWICE.contains(&ctx.id.as_str()) {
         crate::env::set_ambient_b(true);
-        let r2 = run_once(ctx);
+        // the checks of pure functions spend their thorough tier on inputs no ambient configuration can reach;
+        // their second pass is carried out at the quick tier's bounds
+        let quick_b = ctx.tier.thorough() && ["C06", "C09", "C10"].contains(&ctx.id.as_str());
+        let ctx_b = Ctx { id: ctx.id.clone(), tier: if quick_b { crate::core::Tier::Quick } else { ctx.tier }, seed: ctx.seed, verif_dir: ctx.verif_dir.clone(), started: ctx.started.clone() };
+        let r2 = run_once(&ctx_b);
         crate::env::set_ambient_b(false);
         crate::env::set_log_mode(crate::env::LOG_OFF);
         if let Some(r2) = r2 {
@@ -45,6 +49,9 @@ pub fn run(ctx: &Ctx) -> Option<Report> {
             r.stats = st.merge(s2);
             r.rule.push_str(" — The whole exploration is carried out twice: (A) with no logger output and providers that answer at once; (B) with a logger at Trace level (every record's arguments are evaluated; Debug-and-above records and every 16th Trace record are formatted) and, where the harness's standard judge is used, a strict provider (panics when called without readiness) that is not ready at once and answers late, each option that cannot matter for the request at hand (S3 mode, form folding) switched the other way, nine unsigned bystander headers with a meaning elsewhere added where absent, and two thirds of the origin-form request targets rewritten in absolute form (authority = the Host value, or a foreign one). Counts are the sums of both passes; distinct states / inputs are counted once.");
             r.extra["ambient_passes"] = serde_json::json!(2);
+            if quick_b {
+                r.rule.push_str(" For this check pass (B) is carried out at the quick tier's bounds.");
+            }
         }
     }
     Some(r)
